@@ -55,7 +55,10 @@ OpPool == <<
     InsN("N", "u11", "@n", [name |-> "d"]),
     Ins("R", "u12", [name |-> "r4", sref |-> <<"@n">>, x |-> 4]),
     Mut("R", NameIs("r2"), <<<<"wref", "delete", <<"u1">>, "set">>, <<"x", "+=", 1, "atom">>>>),
-    Sel("N", <<>>)
+    Sel("N", <<>>),
+    \* rewriting columns with the value they hold next to a real change
+    Upd("R", NameIs("r2"), [wref |-> <<"u2", "u1">>, x |-> 7]),
+    Upd("R", NameIs("r3"), [mkv |-> <<<<"k", "u1">>>>, y |-> 7])
 >>
 
 ASSUME PrintT(<<"POOL", ToJson(OpPool)>>)
